@@ -503,7 +503,7 @@ func (r *resolver) resolveRefs(rs *Resolved) error {
 			// the ref still treats it lexically.
 			info.resolvedRef = refSchema
 		}
-		if s.DynamicRef != "" {
+		if s.DynamicRef != "" && rs.draft != draft7 {
 			refSchema, frag, err := r.resolveRef(rs, s, s.DynamicRef)
 			if err != nil {
 				return err
